@@ -1368,8 +1368,8 @@ impl Sim for SesSim {
     }
     fn runs(_p: &str, tier: Tier) -> u64 {
         match tier {
-            Tier::Quick => 150_000,
-            Tier::Thorough => 8_000_000,
+            Tier::Quick => 300_000,
+            Tier::Thorough => 20_000_000,
         }
     }
     fn meta(p: &str) -> SimMeta {
